@@ -61,6 +61,15 @@ access(all) contract C {
         init(id: Int) { self.id = id }
     }
     access(all) enum Color: UInt8 { access(all) case red; access(all) case green }
+    // declared here but never used inside C: their lazily computed caches (inherited and built-in members,
+    // conformance sets, supported entitlements) are first touched by the concurrently checked programs
+    access(all) struct interface J { access(all) fun d(): Int { return 5 } }
+    access(all) struct interface J2: J { access(all) fun d2(): Int { return 6 } }
+    access(all) struct T: J2 { access(E) fun te(): Int { return 8 }
+        init() {} }
+    access(all) resource interface RJ { access(all) fun rd(): Int { return 9 } }
+    access(all) resource Q: RJ { init() {} }
+    access(all) fun mkQ(): @Q { return <- create Q() }
     access(all) fun mkS(_ f: Int): S { return S(f: f) }
     access(all) fun mkR(_ id: Int): @R { return <- create R(id: id) }
     init() {}
@@ -87,7 +96,8 @@ access(all) fun main(): [AnyStruct] {
     let xs = [1, 2, 3]
     let d = {"a": 1}
     return [s.g(), r.e(), r.inner.h(), i.g(), xs.length, d.keys.length, (5).toString(), "ab".length,
-        Type<&C.S>().identifier, Type<{C.I}>().identifier, s.getType().identifier, C.Color.green.rawValue]
+        Type<&C.S>().identifier, Type<{C.I}>().identifier, s.getType().identifier, C.Color.green.rawValue,
+        C.T().d(), C.T().d2(), C.T().getType().identifier, C.T().isInstance(Type<{C.J}>()), (&C.T() as auth(C.E) &C.T).te()]
 }
 `
 
@@ -102,8 +112,12 @@ access(all) fun main(): [AnyStruct] {
     let k <- C.mkR(9)
     let id = k.id
     destroy k
+    let q <- C.mkQ()
+    let qd = q.rd() + (q.isInstance(Type<@{C.RJ}>()) ? 1 : 0)
+    destroy q
     return [d.values.length, "xyz".length, (7).toString(), ys.length, i.g(), r.inner.h(), r.e(), id,
-        Type<{C.I}>().identifier, Type<auth(C.E) &C.S>().identifier, s.isInstance(Type<C.S>()), C.Color.red.rawValue]
+        Type<{C.I}>().identifier, Type<auth(C.E) &C.S>().identifier, s.isInstance(Type<C.S>()), C.Color.red.rawValue,
+        C.T().isInstance(Type<C.T>()), C.T().d2(), (C.T() as {C.J}).d(), C.T().getType().identifier, qd]
 }
 `
 
@@ -117,7 +131,8 @@ access(all) fun main(): [AnyStruct] {
     let a: [C.S] = [s]
     let ref = &a[0] as &C.S
     return [f(m), ref.g(), a.length, (1 as Int8).toString(), UInt8(3).saturatingAdd(254), "a".concat("b"),
-        Type<@C.R>().identifier, Type<C.Color>().identifier, ref.getType().identifier]
+        Type<@C.R>().identifier, Type<C.Color>().identifier, ref.getType().identifier,
+        (C.T() as {C.J2}).d(), C.T().d(), Type<C.T>().isSubtype(of: Type<{C.J}>())]
 }
 `
 
